@@ -193,4 +193,24 @@ def specZeroizeLog {α} (it : Item) (t : Trait) (via : Field → ZVia) : Val α 
     | none => []
   | _ => []
 
+/-! ### The operators `core` derives from `eq` and `partial_cmp`
+
+`PartialEq::ne` and `PartialOrd::{lt, le, gt, ge}` are provided methods of `core` (`library/core/src/cmp.rs`):
+`!self.eq(other)`, `matches!(self.partial_cmp(other), Some(Less))`, `Some(Less | Equal)`, `Some(Greater)`,
+`Some(Greater | Equal)`. The derived impls do not override them. -/
+
+def neOf (eq : Bool) : Bool := !eq
+
+def ltOf : Option Ordering → Bool
+  | some .lt => true | _ => false
+
+def leOf : Option Ordering → Bool
+  | some .lt | some .eq => true | _ => false
+
+def gtOf : Option Ordering → Bool
+  | some .gt => true | _ => false
+
+def geOf : Option Ordering → Bool
+  | some .gt | some .eq => true | _ => false
+
 end DW
